@@ -312,7 +312,7 @@ func scenarios(thorough bool) []scenario {
 }
 
 func run(c *core.Ctx) {
-	bound := c.Pick(2, 3)
+	bound := c.Pick(2, 4)
 	horizon := 600
 	c.R.Rule = "case = (scenario: request kind, number of events, failing payload, producer closes or not, consumer behaviour, cancellation) x every schedule of consumer / producer / canceller / forwarder / per-event executors with <= bound preemptions; non-trivial = at least one event or a cancellation; distinct by hash of (scenario, schedule)"
 	c.R.Assumptions = []string{"scheduling only at synchronisation operations is sound for data-race-free programs; races are reported by the detector in every explored schedule", "vsched models Go channel/select semantics", "Go race detector", "instrumenter rewrites preserve semantics"}
@@ -322,7 +322,7 @@ func run(c *core.Ctx) {
 	rl := sx.NewRaceLog()
 	if rl.Enabled() {
 		// race-detector pass: fewer schedules are needed (see cmd/verif: two passes)
-		bound = c.Pick(1, 2)
+		bound = c.Pick(1, 3)
 		c.R.Bounds["race_pass_preemptions"] = bound
 		delete(c.R.Bounds, "preemptions")
 		delete(c.R.Bounds, "preemptions_for_scenarios_with_2_or_more_events")
